@@ -95,12 +95,20 @@ def run(ctx):
         ok = len(lt) == 1 and len(sums) == 1 and sorted(rets) == sorted(["1", norm(sums[0].target)]) and any(isinstance(n, ast.If) and norm(n.test) == "not total_revisions" and norm(n.body[0]) == "return 1" for n in walk_own(fm))
         ok = ok and [norm(s_.value) for s_ in walk_own(fm) if isinstance(s_, ast.Assign) and norm(s_.targets[0]) == norm(sums[0].target)] == ["0"]
     ctx.check("R3-digit-sum", f"{PR}:{COLL}._max_pack_count", ok, "_max_pack_count is the decimal digit sum (1 for an empty repository)")
+    # the distribution and the bound are exact integer arithmetic on the decimal digits (no floating point)
+    for meth in ("pack_distribution", "_max_pack_count", "plan_autopack_combinations"):
+        fx = repo.func(PR, f"{COLL}.{meth}")
+        fl = [norm(n)[:50] for n in ast.walk(fx) if (isinstance(n, ast.Call) and (norm(n.func).startswith("math.") or norm(n.func) in ("float", "round", "log", "log10", "pow"))) or (isinstance(n, ast.BinOp) and isinstance(n.op, ast.Div)) or (isinstance(n, ast.Constant) and isinstance(n.value, float))]
+        ctx.check("R3-integer-exact", f"{PR}:{COLL}.{meth}", not fl, f"{meth} uses integer arithmetic only", construct="; ".join(fl), message=f"{meth} goes through floating point ({'; '.join(fl)}): for some revision counts (e.g. exact powers of ten) the rounded result differs from the decimal digits, so the distribution and the digit-sum bound of _max_pack_count disagree and autopack leaves more packs than the bound")
+    fd = repo.func(PR, f"{COLL}.pack_distribution")
+    ctx.check("R3-integer-exact", f"{PR}:{COLL}.pack_distribution", any(norm(c) == "str(total_revisions)" for c in calls_in(fd)) and any(isinstance(n, ast.BinOp) and isinstance(n.op, ast.Pow) and norm(n.left) == "10" for n in ast.walk(fd)), "pack_distribution is built from the decimal digits of the revision count (str(total_revisions), powers of ten) like _max_pack_count", message="pack_distribution no longer decomposes the revision count through its decimal digits, as _max_pack_count does: the two can disagree")
     fe = repo.func(PR, f"{COLL}._execute_pack_operations")
     lt = loop_targets(fe, lambda t, n: t == "pack_operations")
     ctx.check("R3-empty-operations-skipped", f"{PR}:{COLL}._execute_pack_operations", len(lt) >= 1 and len(lt[0]) == 2 and any(isinstance(n, ast.If) and norm(n.test) in (f"len({lt[0][1]}) == 0", f"not {lt[0][1]}") and any(isinstance(b, ast.Continue) for b in n.body) for n in walk_own(fe)), "an operation without packs is skipped by the executor")
 
 
 MUTANTS = [
+    Mutant("distribution through math.log", PR, "        digits = reversed(str(total_revisions))\n        result = []", "        import math\n        top = int(math.log(total_revisions, 10))\n        digits = reversed(str(total_revisions))\n        result = []", expect="R3-integer-exact"),
     Mutant("early-return test inverted", PR, "        if self._max_pack_count(total_revisions) >= total_packs:\n            return None", "        if self._max_pack_count(total_revisions) < total_packs:\n            return None", expect="R1-nothing-within-bound"),
     Mutant("count accumulated without the pack", PR, "                pack_operations[-1][0] += next_pack_rev_count\n                # allocate this pack to the next pack sub operation\n                pack_operations[-1][1].append(next_pack)\n", "                pack_operations[-1][0] += next_pack_rev_count\n                if next_pack_rev_count > 1:\n                    pack_operations[-1][1].append(next_pack)\n", expect="R2-count-is-sum-of-combined"),
     Mutant("several combinations returned", PR, "        return [[final_rev_count, final_pack_list]]", "        return [op for op in pack_operations if op[1]]", expect="R2-return-shapes"),
